@@ -186,6 +186,12 @@ let dispatch cmd a =
                       | None -> "none")
   (* assign <rows of stored values> <point:element:value;...>: the stored values of one extra dimension after the assignments *)
   | "assign" -> tok_of_grid (assign_elems (grid_of_tok a.(0)) (sel_of_tok a.(1)))
+  (* wevlr <minor> <start_of_first_evlr and number_of_evlrs of the header handed to the writer> <end of the points> <k | ->: the EVLR
+     fields of the header a LasWriter writes when write_evlrs is called with k records (-: not called) *)
+  | "wevlr" -> (match writer_evlr_fields (zi 0) (zi 1) (zi 2) (zi 3) (if a.(4) = "-" then None else Some (zi 4)) with
+                | Some (s, c) -> "ok " ^ string_of_z s ^ " " ^ string_of_z c
+                | None -> "refused")
+  | "pf_sync" -> tok_of_bool point_format_writers_sync
   | "legacy_ok" -> tok_of_bool (spec_legacy_ok (zi 0) (zi 1) (zi 2))
   | "hdr_names" -> names_tok (spec_hdr_layout (minor 0))
   | "dec_hdr" -> dec_out (spec_dec_header (minor 0) (bytes_of_tok a.(1)))
